@@ -18,7 +18,14 @@ N == Len(Rec)
 
 VARIABLES i,      \* next line to consume
           runs,   \* runs consumed
-          bad     \* runs with at least one failed check
+          bad,    \* runs with at least one failed check
+          hb      \* churn runs: bytes allocated at quiescence after the warm-up runs
+
+\* Churn (C08): the same behaviours over and over in one process.  Whatever the collector keeps per
+\* finished trace - also in places the statistics hook does not know of - makes the bytes allocated
+\* at quiescence grow with the number of runs.
+Warm == 25
+HeapTol == 12000
 
 CfgOf(e) == [cancelable |-> e.cfg.cancelable, enabled |-> e.cfg.enabled, ready |-> e.cfg.ready,
              queue |-> e.cfg.queue, stack |-> e.cfg.stack, foreign |-> A!Rng(e.cfg.foreign),
@@ -34,7 +41,7 @@ Consume(a, j) ==
 
 Show(run, v) == PrintT(<<"VIOL", ToJson([run |-> run, p |-> v.p, w |-> v.w, k |-> IF v.k = None THEN "" ELSE v.k, d |-> ToString(v.d)])>>)
 
-Init == i = 1 /\ runs = 0 /\ bad = 0
+Init == i = 1 /\ runs = 0 /\ bad = 0 /\ hb = 0
 Next ==
   /\ i <= N
   /\ Rec[i].ev = "reset"
@@ -46,6 +53,11 @@ Next ==
          v == r[1].viol IN
      /\ \A k \in DOMAIN v : Show(Rec[i].run, v[k])
      /\ r[1].ovl => PrintT(<<"OVL", Rec[i].run>>)
+     /\ LET churn == "churn" \in DOMAIN Rec[i].cfg /\ r[1].heap # None IN
+        /\ hb' = IF churn /\ runs = Warm THEN r[1].heap ELSE hb
+        /\ (churn /\ runs > Warm /\ r[1].heap > hb + HeapTol) =>
+              PrintT(<<"VIOL", ToJson([run |-> Rec[i].run, p |-> "C08", w |-> "heap-keeps-growing", k |-> "",
+                                       d |-> ToString(<<"bytes at quiescence after warm-up", hb, "now", r[1].heap, "runs", runs>>)])>>)
      /\ i' = r[2]
      /\ runs' = runs + 1
      /\ bad' = IF v = <<>> THEN bad ELSE bad + 1
